@@ -201,7 +201,7 @@ struct C11 : Scenario {
         unsigned T1 = std::max(1u, x.S / 2);
         Cfg c1 = x.cfg; c1.output = "good.h5"; c1.rotations = (T1 - 0.5) / x.d.steps; c1.saveps = 1; c1.outstep = 2;
         if (kind == "multibunch") c1.currents = {1e-3, 2e-3};
-        if (kind == "gridsize") c1.grid = x.cfg.grid + (arg % 2 ? 3 : -2);
+        if (kind == "gridsize") { long g = x.cfg.grid; long opts[4] = {g + 3, std::max(8L, g - 2), std::max(8L, g / 2), g * 2}; c1.grid = opts[arg % 4]; if (c1.grid == g) c1.grid = g + 1; }
         LaunchResult r1; H5Snap good;
         if (!launch_ok(x, c1, "good", r1, good)) { o.set_infra("cannot produce start file for fault " + kind + ": " + r1.describe() + tail(r1.err)); return; }
         std::string src = read_file(x.rc->workdir + "/good.h5");
